@@ -67,17 +67,28 @@ Definition deploy_prefix : bytes := s2l "/deploy".
 
 Record wl := mkWl { w_id : bytes; w_name : bytes; w_node : bytes }.
 
-Definition deploy_key (w : wl) : option bytes :=
+Definition status_prefix : bytes := s2l "/status".
+
+(* key of a workload under a root: /deploy (doOpsWorkload) or /status (SetWorkloadStatus) *)
+Definition obj_key (root : bytes) (w : wl) : option bytes :=
   match parse_name (w_name w) with
-  | Some (app, entry, _) => Some (join_path [deploy_prefix; app; entry; w_node w; w_id w])
+  | Some (app, entry, _) => Some (join_path [root; app; entry; w_node w; w_id w])
   | None => None
   end.
+Definition deploy_key (w : wl) : option bytes := obj_key deploy_prefix w.
 
-(* ListWorkloads: if appname == "" { entrypoint = "" }; if entrypoint == "" { nodename = "" } *)
-Definition list_key (app entry node : bytes) : bytes :=
+(* ListWorkloads / WorkloadStatusStream: if appname == "" { entrypoint = "" }; if entrypoint == "" { nodename = "" } *)
+Definition filter_key (root app entry node : bytes) : bytes :=
   let entry := match app with [] => [] | _ => entry end in
   let node := match entry with [] => [] | _ => node end in
-  join_path [deploy_prefix; app; entry; node] ++ [slash].
+  join_path [root; app; entry; node] ++ [slash].
+Definition list_key (app entry node : bytes) : bytes := filter_key deploy_prefix app entry node.
+
+(* WorkloadStatusStream(app, entry, node) on etcd: a watch on the prefix filter_key "/status";
+   it reports the ids of the workloads whose status key changes under it *)
+Definition stream_ids (ws : list wl) (app entry node : bytes) : list bytes :=
+  let fk := filter_key status_prefix app entry node in
+  map w_id (filter (fun w => match obj_key status_prefix w with Some k => has_prefix fk k | None => false end) ws).
 Definition status_key (app entry : bytes) : bytes := join_path [deploy_prefix; app; entry] ++ [slash].
 
 (* ---- redis glob (SCAN MATCH): '*', '?', '\x'; character classes are not modelled
@@ -140,7 +151,9 @@ Record addc := mkAdd { a_app : string; a_entry : string; a_ident : string; a_nod
 (* acc: observed, every non-empty filter name passes the corresponding Validate *)
 Inductive query :=
 | QList (app entry node : string) (acc : bool) (obs : option (list string))   (* observed ids, sorted; None = error *)
-| QStatus (app entry : string) (acc : bool) (obs : list (string * N)).         (* observed node -> count, sorted by node *)
+| QStatus (app entry : string) (acc : bool) (obs : list (string * N))          (* observed node -> count, sorted by node *)
+| QStream (app entry node : string) (acc : bool) (obs : list string).           (* etcd: ids reported by WorkloadStatusStream after every
+                                                                                   workload's status was set once; sorted *)
 
 Record case := mkCase { c_backend : backend; c_adds : list addc; c_queries : list query }.
 
@@ -197,6 +210,9 @@ Definition query_agrees (b : backend) (s : kspace) (q : query) : bool :=
   | QStatus app entry acc obs =>
       Bool.eqb acc (valid_app (s2l app) && valid_entry (s2l entry))
       && counts_eqb (count_runs (sort_bytes (status_nodes b s (s2l app) (s2l entry)))) obs
+  | QStream app entry node acc obs =>
+      Bool.eqb acc (accepted_or_empty valid_app app && accepted_or_empty valid_entry entry && accepted_or_empty valid_node node)
+      && bytes_list_eqb (sort_bytes (stream_ids (map snd s) (s2l app) (s2l entry) (s2l node))) (map s2l obs)
   end.
 
 Fixpoint bools_eqb (a b : list bool) : bool :=
@@ -244,6 +260,10 @@ Definition query_ok (adds : list addc) (q : query) : bool :=
       if acc
       then counts_eqb (count_runs (sort_bytes (map (fun a => s2l (a_node a))
                                    (filter (created_under app entry EmptyString) adds)))) obs
+      else true
+  | QStream app entry node acc obs =>
+      if acc
+      then bytes_list_eqb (sort_bytes (map (fun a => s2l (a_id a)) (filter (created_under app entry node) adds))) (map s2l obs)
       else true
   end.
 
